@@ -76,3 +76,16 @@ type Logger interface {
 	Logf(format string, args ...interface{})
 	Many(vs ...T0)
 }
+
+// AliasA and AliasB are alias-declared interface literals: go/types gives their
+// methods the same full name "(interface).Transfer" although the parameter
+// names are permuted and the types differ.
+type AliasA = interface {
+	Transfer(from, to T0, amount T1) R0
+	Flush()
+}
+
+type AliasB = interface {
+	Transfer(to, from T0, amount T1) R0
+	Flush(ctx T2) (int, error)
+}
